@@ -115,7 +115,7 @@ def one_case(ctx, k):
     os.makedirs(d, exist_ok=True)
     try:
         demux = rng.choice(["normal", "normal", "combinatorial"])
-        sc = F.observe(ctx, rng, d, dict(demux=demux, trace=False, paired_p=0.5, filter_scale=0.45, shared_names_p=0.2, odd_names_p=0.3, unknown_name_p=0.12, revcomp_p=0.1, template_styles_p=0.3, kinds=["a", "a", "g", "b", "a$", "g^", "linked"]))
+        sc = F.observe(ctx, rng, d, dict(demux=demux, trace=False, paired_p=0.5, filter_scale=0.45, shared_names_p=0.2, odd_names_p=0.3, unknown_name_p=0.12, revcomp_p=0.1, template_styles_p=0.3, empty_name_p=0.08, kinds=["a", "a", "g", "b", "a$", "g^", "linked"]))
         if sc is None:
             return
         sc.case["k"] = k
